@@ -6,7 +6,7 @@ import ast
 from vlib.core import AnalysisError, Report
 from vlib.flow import enclosing_tries, parent_map
 from vlib.grammar import EMPTY, GrammarModel
-from vlib.match import X, calls, closure, deref, has_call, nodes
+from vlib.match import FI, X, calls, closure, deref, has_call, nodes
 from vlib.nodemodel import NodeModel, snakelize
 from vlib.srcindex import ClassInfo, FuncInfo, SourceIndex, attr_chain, const_str, unparse, walk_no_nested
 from vlib.typer import Typer
@@ -448,7 +448,7 @@ def rule_e(rep: Report, idx: SourceIndex, nm: NodeModel) -> None:
 
 	def nonempty(c: ClassInfo, f: FuncInfo, prod, depth=0) -> bool | None:
 		"""can the list property f of class c be proven non-empty for this (non-empty) production?"""
-		rets = [n.value for n in walk_no_nested(f.node) if isinstance(n, ast.Return) and n.value is not None]
+		rets = [n.value for n in walk_no_nested(FI(f)) if isinstance(n, ast.Return) and n.value is not None]
 		if len(rets) != 1 or depth > 3:
 			return None
 		e = rets[0]
